@@ -1165,3 +1165,6 @@ def run(rep):
     r01m(rep, F)
     r01n(rep, F)
     r01o(rep, F)
+    from rules import c01_informed
+    c01_informed.r01p(rep, F)
+    c01_informed.r01q(rep, F)
